@@ -645,7 +645,7 @@ func TestC03(t *testing.T) {
 	}
 	corpusLateAdd(t, w) // always first: the check-then-act window of setLocalHead on the real code
 	// and the two schedules with delayed Head() calls that move the shim head into a list the loop is about to append (F23)
-	for _, kind := range []string{"range", "answer", "lock"} {
+	for _, kind := range []string{"range", "answer", "lock", "slowwrite", "failwrite_loop", "failwrite_gossip"} {
 		run, ok, err := syncfx.RunStraddle(kind)
 		if err != nil {
 			t.Fatalf("corpus straddle/%s: %v", kind, err)
@@ -658,6 +658,12 @@ func TestC03(t *testing.T) {
 		if kind == "lock" {
 			class = "corpus/append_lock"
 		}
+		if kind == "slowwrite" {
+			class = "corpus/slow_store_write"
+		}
+		if kind == "failwrite_loop" || kind == "failwrite_gossip" {
+			class = "corpus/" + kind
+		}
 		res := make([]string, len(run.Results))
 		for i, x := range run.Results {
 			res[i] = fmt.Sprint(x)
@@ -666,7 +672,7 @@ func TestC03(t *testing.T) {
 		for i, x := range run.Heights {
 			hs[i] = fmt.Sprint(x)
 		}
-		term := fmt.Sprintf("Case03 %s 0 false %d %s %s %s %s %s %s %d", emit.Z(run.Drift), run.Tail, run.Init, run.Chain, emit.List(run.Acts),
+		term := fmt.Sprintf("Case03 %s 0 %s %d %s %s %s %s %s %s %d", emit.Z(run.Drift), emit.B(run.Gate), run.Tail, run.Init, run.Chain, emit.List(run.Acts),
 			emit.List(res), emit.List(run.Probe), emit.List(hs), run.Hashes)
 		w.Add(term, map[string]any{"class": class, "what": run.Note}, class, true)
 		w.Count("class", class)
